@@ -1,7 +1,125 @@
-(* Properties/C19.v — placeholder until Proofs for Model/Add.v add_ili are assembled. *)
-From Coq Require Import ZArith List.
+(* Properties/C19.v — loading an ILI index only updates status and definitions (model: Add.add_ili written from wn/_add.py _add_ili;
+   the file-format recogniser is_ili is part of Model/Project.v, Properties/C07.v).
+   [ilis_ok] (Proofs/AddProofs.v): every ilis row is [rowid; id; status; definition; metadata] with distinct rowids and ids.
+   Statements only: every theorem is closed by `exact` of a lemma proved under Proofs/, followed by
+   Print Assumptions.  (Statement texts were printed by Coq from the proved lemmas by harness/mkprops.py and are
+   fixed from then on.) *)
+From Coq Require Import String.
+From Coq Require Import ZArith List Bool.
 Import ListNotations.
-Require Import WnV.Base.Sx WnV.Model.Add.
-Example C19_placeholder : run_add_ili (L [L []; L []]) = run_add_ili (L [L []; L []]).
-Proof. reflexivity. Qed.
-Print Assumptions C19_placeholder.
+Require Import WnV.Base.Sx WnV.Gen.Schema WnV.Gen.Constants WnV.Model.Spec WnV.Model.Val.
+Require Import WnV.Model.Rel WnV.Model.Add WnV.Proofs.AddProofs.
+Local Open Scope Z_scope.
+Local Open Scope string_scope.
+
+(* ---- nothing but the ilis and ili_statuses tables is touched: no lexicon content changes *)
+Theorem C19_add_ili_touches_only_ili_tables :
+  forall (d : db) (lines : list (list str)) (d' : db),
+         add_ili d lines = Ok d' ->
+         forall t : string, t <> "ilis" -> t <> "ili_statuses" -> get_table d' t = get_table d t.
+Proof. exact (@add_ili_touches_only_ili_tables). Qed.
+Print Assumptions C19_add_ili_touches_only_ili_tables.
+
+(* ---- an ILI listed in the file ends with the status and definition of its LAST line (NULL definition when the field is missing), keeping its rowid and metadata *)
+Theorem C19_add_ili_listed :
+  forall (d : db) (lines : list (list str)) (d' : db) (infos pre : list (list (val * str)))
+           (info : list (val * str)) (post : list (list (val * str))) (i : str),
+         ilis_ok (get_table d "ilis") = true ->
+         add_ili d lines = Ok d' ->
+         ili_load lines = Ok infos ->
+         infos = (pre ++ info :: post)%list ->
+         dict_get info (vs "ili") = Some i ->
+         (forall x : list (val * str), In x post -> dict_get x (vs "ili") <> Some i) ->
+         (exists r : row, In r (get_table d' "ilis") /\ col "ilis" "id" r = CText i) /\
+         (forall r : row,
+          In r (get_table d' "ilis") ->
+          col "ilis" "id" r = CText i ->
+          col "ilis" "status_rowid" r = ILISTAT_QUERY d' (CText (status_of info)) /\
+          (exists n : Z, col "ilis" "status_rowid" r = CInt n) /\
+          col "ilis" "definition" r = def_cell info) /\
+         (forall r0 : row,
+          In r0 (get_table d "ilis") ->
+          col "ilis" "id" r0 = CText i ->
+          exists r : row,
+            In r (get_table d' "ilis") /\
+            col "ilis" "id" r = CText i /\
+            rowid_of r = rowid_of r0 /\ col "ilis" "metadata" r = col "ilis" "metadata" r0).
+Proof. exact (@add_ili_listed). Qed.
+Print Assumptions C19_add_ili_listed.
+
+(* ---- every other ILI row is unchanged; new rows are appended only for listed ids that were absent, with fresh rowids *)
+Theorem C19_add_ili_unlisted :
+  forall (d : db) (lines : list (list str)) (d' : db) (infos : list (list (val * str))),
+         ilis_ok (get_table d "ilis") = true ->
+         add_ili d lines = Ok d' ->
+         ili_load lines = Ok infos ->
+         exists (f : row -> row) (news : table),
+           get_table d' "ilis" = (map f (get_table d "ilis") ++ news)%list /\
+           (forall (r : row) (j : nat),
+            j <> col_index "ilis" "status_rowid" ->
+            j <> col_index "ilis" "definition" -> cell_at j (f r) = cell_at j r) /\
+           (forall r : row,
+            rowid_of (f r) = rowid_of r /\ Datatypes.length (f r) = Datatypes.length r) /\
+           (forall r : row,
+            (forall (info : list (val * str)) (i : str),
+             In info infos -> dict_get info (vs "ili") = Some i -> col "ilis" "id" r <> CText i) ->
+            f r = r) /\
+           (forall r : row,
+            In r news ->
+            exists (info : list (val * str)) (i : str),
+              In info infos /\
+              dict_get info (vs "ili") = Some i /\
+              col "ilis" "id" r = CText i /\
+              (forall r0 : row,
+               In r0 (get_table d "ilis") ->
+               col "ilis" "id" r0 <> CText i /\ rowid_of r0 < rowid_of r)).
+Proof. exact (@add_ili_unlisted). Qed.
+Print Assumptions C19_add_ili_unlisted.
+
+(* ---- loading the same index again changes nothing (exact database equality) *)
+Theorem C19_add_ili_idempotent :
+  forall (d : db) (lines : list (list str)) (d' : db),
+         ilis_ok (get_table d "ilis") = true -> add_ili d lines = Ok d' -> add_ili d' lines = Ok d'.
+Proof. exact (@add_ili_idempotent). Qed.
+Print Assumptions C19_add_ili_idempotent.
+
+(* ---- statuses: old rows kept as a prefix, every status of the file present afterwards, nothing else added *)
+Theorem C19_add_ili_statuses_grow :
+  forall (d : db) (lines : list (list str)) (d' : db) (infos : list (list (val * str))),
+         add_ili d lines = Ok d' ->
+         ili_load lines = Ok infos ->
+         exists (ns : list str) (rows : list row),
+           get_table d' "ili_statuses" = (get_table d "ili_statuses" ++ rows)%list /\
+           map (col "ili_statuses" "status") rows = map CText ns /\
+           subseq ns (file_statuses infos) /\
+           Sorted.StronglySorted str_lt (file_statuses infos) /\
+           (forall s : str, In s ns -> has_status (get_table d "ili_statuses") s = false) /\
+           (forall info : list (val * str),
+            In info infos -> has_status (get_table d' "ili_statuses") (status_of info) = true).
+Proof. exact (@add_ili_statuses_grow). Qed.
+Print Assumptions C19_add_ili_statuses_grow.
+
+(* ---- the well-formedness predicate is preserved and makes the row of an id unique *)
+Theorem C19_add_ili_ilis_ok :
+  forall (d : db) (lines : list (list str)) (d' : db),
+         ilis_ok (get_table d "ilis") = true ->
+         add_ili d lines = Ok d' -> ilis_ok (get_table d' "ilis") = true.
+Proof. exact (@add_ili_ilis_ok). Qed.
+Print Assumptions C19_add_ili_ilis_ok.
+
+Theorem C19_ilis_ok_unique :
+  forall (T : table) (r1 r2 : row) (i : str),
+         ilis_ok T = true ->
+         In r1 T ->
+         In r2 T -> col "ilis" "id" r1 = CText i -> col "ilis" "id" r2 = CText i -> r1 = r2.
+Proof. exact (@ilis_ok_unique). Qed.
+Print Assumptions C19_ilis_ok_unique.
+
+(* ---- non-vacuity: a database built by two add_ili calls on the empty database satisfies ilis_ok *)
+Theorem C19_ex_db_ilis_ok :
+  ilis_ok (get_table ex_db "ilis") = true /\
+         Datatypes.length (get_table ex_db "ilis") = 4%nat /\
+         Datatypes.length (get_table ex_db "ili_statuses") = 3%nat.
+Proof. exact (@ex_db_ilis_ok). Qed.
+Print Assumptions C19_ex_db_ilis_ok.
+
